@@ -41,6 +41,13 @@ impl Method for FixedMethod {
             return self.current_suggestion(config);
         }
 
+        if !self.ongoing_input_session() {
+            // The key has composed nothing (eg. a Kar without an independent form typed at the
+            // beginning), so no input session is going on and the key is not recorded.
+            self.typed.clear();
+            return Suggestion::empty();
+        }
+
         if config.get_fixed_suggestion() {
             if let Some(character) = keycode_to_char(key) {
                 self.typed.push(character);
